@@ -38,7 +38,7 @@ COMMON_ASSUME = [
     "container/list lengths and payload lengths are concrete per harness (the shape); all values symbolic",
 ]
 
-HOOK_COMMITS = ["092c7f4"]
+HOOK_COMMITS = ["092c7f4", "3a1a3a6"]
 
 NOT_BUILT = {}
 
@@ -49,17 +49,17 @@ TECH = ("bounded model checking of the compiled Rust code: Kani 0.68 proof harne
 PROPS = {
     "C01": dict(
         design_ref="DESIGN.md 5.1",
-        level_text="The real track writer is run from its real initial state over every history of K<=2 (quick) / K<=3 (thorough) write_sample "
+        level_text="The real track writer is run from its real initial state over every history of K<=1 (quick; K=2 as table totals) / K<=2 (thorough; K=3 as table totals) write_sample "
                    "calls per payload-length vector, with payload bytes, durations, rendering offsets, sync flags and both timescales symbolic, so "
                    "every interleaving of chunk-flush / fixed-to-variable stsz / lazy ctts+stss decisions is inside one query; the produced tables are "
                    "interpreted by the ISO 8.6/8.7 semantics (additive walks) and must mean exactly the samples written, with the chunk bytes at the "
                    "recorded offsets. Reading such tables back is decided by C03 for every table shape up to 4 samples; t_h01e2e additionally runs the "
                    "real lookups on the writer's own tables. Mp4Writer: symbolic track id, rejected calls leave every piece of writer state unchanged.",
-        level_note="Bounded: K<=3 samples, payload <= 2 bytes, durations < 2^30 (u32 chunk_duration overflow is C17's), <= 2 tracks. "
+        level_note="Bounded: K<=2 samples with the full interpretation of the tables (the K=3 interpretations exhaust 32 GB and are excluded), payload <= 2 bytes, timescales concrete per harness except t_h01sym, durations < 2^30 (u32 chunk_duration overflow is C17's), <= 2 tracks. "
                    "Composition with C03 (lookup) and C04 (table codecs) instead of reopening the produced bytes: " + GLUE,
-        bounds="histories of K<=2 (quick) / K<=3 (thorough) samples from the initial state, every media kind at K=1, payload lengths in {0,1,2}, "
+        bounds="histories of K<=1 (quick) / K<=2 (thorough) samples from the initial state with full table interpretation, K=2 / K=3 as table totals (h01sums), every media kind at K=1, payload lengths in {0,1,2}, "
                "durations < 2^30, timescales >= 1, i32 offsets, both sync values; Mp4Writer with 0..2 tracks and a symbolic track id",
-        outside="longer histories (an inductive step over arbitrary writer states is not built), reopening the bytes with Mp4Reader::read_header, samples larger than 2 bytes",
+        outside="histories longer than 2 samples with full interpretation (an inductive step over arbitrary writer states is not built), symbolic timescales beyond K=1, reopening the bytes with Mp4Reader::read_header, samples larger than 2 bytes",
         assumptions=COMMON_ASSUME + ["durations < 2^30 per sample", "the output stream is an in-memory cursor with room"],
     ),
     "C02": dict(
@@ -71,7 +71,7 @@ PROPS = {
                    "code for symbolic brands / version / timescale.",
         level_note="Byte-level tiling only for the zero-track writer (with a track the whole pipeline does not finish); per-container size identities "
                    "come from C04 (write_box returns box_size() == bytes written, header size == that). Durations and timescales < 2^20 in h02dur. " + GLUE,
-        bounds="K<=2 (quick) / K<=3 (thorough) samples per history, payload lengths 0..2, durations < 2^30 (< 2^20 with timescales < 2^20 in the one-tick check), 0..2 compatible brands",
+        bounds="K<=1 full / K=2 totals (quick), K<=2 full / K=3 totals (thorough) samples per history, concrete timescale pairs, payload lengths 0..2, durations < 2^30 (< 2^20 with timescales < 2^20 in the one-tick check), 0..2 compatible brands",
         outside="byte-level walk of a file that has tracks; several tracks; histories longer than 3 samples",
         assumptions=COMMON_ASSUME + ["durations < 2^30 per sample"],
     ),
@@ -205,7 +205,7 @@ PROPS = {
                    "symbolic (< 2^40), so below / at / above 2^32 are values of one query: mdat size patch of the real Mp4Writer, chunk offset + "
                    "co64/stco choice of the real track writer, header versions vs durations, and BoxHeader write->read over sizes 8..2^62.",
         level_note="mvhd's version switch inside Mp4Writer::write_end needs a track in the writer, which does not get through CBMC; it is three lines and is not covered.",
-        bounds="start offset and gap < 2^40, K<=2 samples with full-range u32 durations, one chunk",
+        bounds="start offset and gap < 2^40, one sample with a full-range u32 duration and symbolic timescales (two samples time out), one chunk",
         outside="mvhd version in Mp4Writer::write_end, several chunks, reading the result back with Mp4Reader",
         assumptions=COMMON_ASSUME + ["the sparse stream stands for a seekable file (positions only)"],
     ),
